@@ -123,7 +123,19 @@ func leavesArg(info *nfpm.Info) string { return encLeaves(infoLeaves(info)) }
 func metaCase(c *Ctx, fam *report.Family, f string, s *PkgSpec, in map[string]any) {
 	infoForModel := s.Info() // what Package receives
 	la := leavesArg(infoForModel)
-	data, err := BuildPkg(f, s.Info())
+	var data []byte
+	var err error
+	if ask, _ := in["file_name_asked_first"].(bool); ask {
+		// the way `nfpm package` with a directory (or no) target does it: the conventional file name is asked of the
+		// very Info that is then packaged
+		info := s.Info()
+		if p, gerr := nfpm.Get(f); gerr == nil {
+			_ = p.ConventionalFileName(info)
+		}
+		data, err = BuildPkg(f, info)
+	} else {
+		data, err = BuildPkg(f, s.Info())
+	}
 	key := fmt.Sprintf("%s|%v", f, in)
 	if err != nil {
 		fam.Eval(key, false)
@@ -295,7 +307,7 @@ func first(xs []string) string {
 func runC02(c *Ctx) error {
 	r := c.R.Fork("c02")
 	// ---- exhaustive architecture table: every documented GOARCH (+ unknown, + override) x 5 formats
-	fam := c.Rep.Family("arch-table", "exhaustive: every GOARCH of the documented table plus mips float variants, an unknown architecture and a format-specific override x 5 formats: the architecture stated inside the package vs the model's translation (tables regenerated from the source)")
+	fam := c.Rep.Family("arch-table", "exhaustive: every GOARCH of the documented table plus mips float variants, an unknown architecture and a format-specific override x 5 formats: the architecture stated inside the package vs the model's translation (tables regenerated from the source); each case also on a non-linux platform with the conventional file name asked of the Info before it is packaged (what the CLI does for a directory target)")
 	fam.Exhaustive = true
 	arches := []string{"386", "amd64", "arm64", "arm5", "arm6", "arm7", "mips", "mipsle", "mips64le", "ppc64le", "s390", "all", "riscv64", "mipssoftfloat", "mips64lehardfloat"}
 	for _, a := range arches {
@@ -320,11 +332,20 @@ func runC02(c *Ctx) error {
 					nfpm.WithDefaults(info)
 				}}
 				metaCase(c, fam, f, s, map[string]any{"arch": a, "override": ov})
+				if ov == "" || ov == "custom-arch" {
+					s2 := &PkgSpec{Umask: 0o022, MTime: 1700000000, Mutate: func(info *nfpm.Info) {
+						s.Mutate(info)
+						if f == "deb" || f == "rpm" || f == "ipk" {
+							info.Platform = "freebsd"
+						}
+					}}
+					metaCase(c, fam, f, s2, map[string]any{"arch": a, "override": ov, "platform": "freebsd where the format allows it", "file_name_asked_first": true})
+				}
 			}
 		}
 	}
 	// ---- random metadata
-	fam2 := c.Rep.Family("metadata", "random metadata (unicode, multi-line and blank-line descriptions, CRLF, padded values, empty optional fields, relation lists with version constraints and blank items, custom fields incl. reserved ipk names, triggers, ipk alternatives/tags/ABI, rpm group/summary/packager/prefixes, archlinux pkgbase/packager, all version component combinations) x 5 formats: control member bytes vs model, control data parsed by the Lean parsers vs the logical fields the configuration states; non-trivial = every built case")
+	fam2 := c.Rep.Family("metadata", "random metadata (unicode, multi-line and blank-line descriptions, CRLF, padded values, empty optional fields, relation lists with version constraints and blank items, custom fields incl. reserved ipk names, triggers, ipk alternatives/tags/ABI, rpm group/summary/packager/prefixes, archlinux pkgbase/packager, all version component combinations; every second case with the conventional file name asked of the Info first) x 5 formats: control member bytes vs model, control data parsed by the Lean parsers vs the logical fields the configuration states; non-trivial = every built case")
 	tree, err := MkTree(c.Tmp+"/src", 0)
 	if err != nil {
 		return err
@@ -372,7 +393,7 @@ func runC02(c *Ctx) error {
 			}
 		}
 		for _, f := range Formats {
-			metaCase(c, fam2, f, s, map[string]any{"case_seed": seed, "contents": withContents})
+			metaCase(c, fam2, f, s, map[string]any{"case_seed": seed, "contents": withContents, "file_name_asked_first": i%2 == 1})
 		}
 	}
 	return c02YAMLRoute(c, r)
